@@ -9,6 +9,7 @@ import (
 	"strings"
 
 	"golang.org/x/tools/go/packages"
+	"golang.org/x/tools/go/ssa"
 )
 
 func init() { register("C02", checkC02) }
@@ -47,6 +48,9 @@ func checkC02(w *World, r *Report) {
 
 	r.Rule("R02.5", "the value is the tree's value: EvalLocPathInternal navigates with the path it just popped, asks exactly the entry Navigate returned for its value and pushes exactly that value; deref pushes the path of the entry FollowLeafRef returned", 4)
 	r.guard("R02.5", func() { c02Value(w, r) })
+
+	r.Rule("R02.7", "paths are written only by the path-stack API: every call of a non-getter method of *sdcpb.Path / *sdcpb.PathElem, every store to one of their fields and every update of a key map in package xpath is one of the reviewed writers (push element, mark absolute, attach keys); whether a method writes is decided from its own body", 3)
+	r.guard("R02.7", func() { c02PathWriters(w, r) })
 
 	r.Rule("R02.6", "predicate brackets are balanced: PREDSTART opens a copy of the current path and increments the predicate depth; PREDEND decrements it, drops the copy and resets every piece of per-predicate state (the key-name/operand toggle), so consecutive predicates start from the same state; the toggle tests in the step instruction and in EvalLocPath are complementary", 5)
 	r.guard("R02.6", func() { c02Brackets(w, r) })
@@ -162,6 +166,52 @@ func c02Root(w *World, r *Report) {
 	}
 	if n == 0 || setRoot == nil {
 		r.Fail("R02.2", "SetIsRootBased", token.NoPos, "no call found: absolute paths are never marked root-based")
+	}
+	// the absolute path starts empty: the receiver of SetIsRootBased is a freshly allocated path that replaces
+	// the top of the path stack (inside a predicate the top is a copy of the path up to the step)
+	{
+		okFresh, okSwap := false, false
+		var pos token.Pos
+		for _, f := range allFuncs(w.SSAPkg("xpath")) {
+			if f.Parent() == nil || f.Parent().Object() != types.Object(cpo) {
+				continue
+			}
+			var pops, pushes int
+			var recv ssa.Value
+			var pushed ssa.Value
+			for _, b := range f.Blocks {
+				for _, in := range b.Instrs {
+					c, ok := in.(*ssa.Call)
+					if !ok || c.Call.StaticCallee() == nil {
+						continue
+					}
+					switch c.Call.StaticCallee().Name() {
+					case "SetIsRootBased":
+						recv = c.Call.Args[0]
+						pos = c.Pos()
+					case "PopPath":
+						pops++
+					case "PushPath":
+						pushes++
+						pushed = c.Call.Args[1]
+					}
+				}
+			}
+			if recv == nil {
+				continue
+			}
+			_, okFresh = recv.(*ssa.Alloc)
+			if okFresh && pops == 1 && pushes == 1 && pushed != nil {
+				// what is pushed is the fresh path (directly or as SetIsRootBased's fluent result)
+				if pushed == recv {
+					okSwap = true
+				} else if pc, ok := pushed.(*ssa.Call); ok && pc.Call.StaticCallee() != nil && pc.Call.StaticCallee().Name() == "SetIsRootBased" && pc.Call.Args[0] == recv {
+					okSwap = true
+				}
+			}
+		}
+		r.Check(okFresh && okSwap, "R02.2", "the '/' instruction starts an empty root-based path", pos, "PopPath; PushPath(fresh path marked root-based)",
+			"the '/' instruction marks the path under construction as root-based instead of replacing it by an empty one: inside a predicate that is a copy of the path so far, so /a/b[k = /x/y] asks the tree for /a/b/x/y")
 	}
 	// grammar: CodePathOper('/') only in Root productions; Root only first
 	for _, gname := range []string{"expr", "leafref"} {
@@ -630,3 +680,176 @@ func c02Brackets(w *World, r *Report) {
 }
 
 var _ = packages.NeedName
+
+// c02PathWriters: who-may-write rule for the navigation paths. A path handed
+// to Entry.Navigate is an *sdcpb.Path assembled by the path-stack API; any
+// other code that calls a non-getter method of *sdcpb.Path / *sdcpb.PathElem,
+// writes one of their fields or updates a key map changes which node (or
+// which key value) is addressed.
+var c02PathWriterAllowed = map[string]string{
+	"PathStack.PushElem → Path.AddPathElem":           "one element per step, appended to the path on top of the stack (R02.3)",
+	"ProgBuilder.CodePathOper → Path.SetIsRootBased": "the '/' arm marks the path absolute (R02.2)",
+	"ProgBuilder.PredicatesEnd → PathElem.AddKey":     "attaches the collected predicate keys to the last element (R02.4)",
+}
+
+func c02PathWriters(w *World, r *Report) {
+	sp := w.SSAPkg("xpath")
+	isPathT := func(t types.Type) string {
+		if p, ok := t.(*types.Pointer); ok {
+			t = p.Elem()
+		}
+		n, ok := t.(*types.Named)
+		if !ok || n.Obj().Pkg() == nil || !strings.HasSuffix(n.Obj().Pkg().Path(), "/schema-server") && !strings.Contains(n.Obj().Pkg().Path(), "sdcpb") {
+			return ""
+		}
+		if n.Obj().Name() == "Path" || n.Obj().Name() == "PathElem" {
+			return n.Obj().Name()
+		}
+		return ""
+	}
+	seen := map[string]bool{}
+	for _, f := range allFuncs(sp) {
+		fname := f.Name()
+		if f.Parent() != nil {
+			fname = f.Parent().Name() // closures are named after the function that builds them
+		}
+		if recv := f.Signature.Recv(); recv != nil && f.Parent() == nil {
+			fname = namedStructOf(recv.Type()) + "." + fname
+		} else if f.Parent() != nil && f.Parent().Signature.Recv() != nil {
+			fname = namedStructOf(f.Parent().Signature.Recv().Type()) + "." + fname
+		}
+		report := func(what string, pos token.Pos) {
+			key := fname + " → " + what
+			if seen[key] {
+				return
+			}
+			seen[key] = true
+			if why, ok := c02PathWriterAllowed[key]; ok {
+				r.Reviewed("R02.7", key, pos, why)
+			} else {
+				r.Fail("R02.7", key, pos, "a navigation path (or one of its elements/keys) is modified outside the path-stack API: the node or key value the data tree is asked for is no longer the one the expression designates")
+			}
+		}
+		for _, b := range f.Blocks {
+			for _, in := range b.Instrs {
+				switch x := in.(type) {
+				case ssa.CallInstruction:
+					cc := x.Common()
+					callee := cc.StaticCallee()
+					if callee == nil || callee.Signature.Recv() == nil {
+						continue
+					}
+					t := isPathT(callee.Signature.Recv().Type())
+					if t == "" {
+						continue
+					}
+					n := callee.Name()
+					if !recvWrites(w, callee, 0) {
+						continue // reads only (decided from the method's own body)
+					}
+					report(t+"."+n, in.Pos())
+				case *ssa.Store:
+					if fa, ok := x.Addr.(*ssa.FieldAddr); ok {
+						if t := isPathT(fa.X.Type()); t != "" {
+							if _, fresh := fa.X.(*ssa.Alloc); !fresh {
+								st := fa.X.Type().(*types.Pointer).Elem().Underlying().(*types.Struct)
+								report(t+"."+st.Field(fa.Field).Name(), in.Pos())
+							}
+						}
+					}
+				case *ssa.MapUpdate:
+					// key maps: a map obtained from a PathElem (GetKey() or .Key)
+					var from func(v ssa.Value, d int) string
+					from = func(v ssa.Value, d int) string {
+						if d > 4 {
+							return ""
+						}
+						switch y := v.(type) {
+						case *ssa.Call:
+							if c := y.Call.StaticCallee(); c != nil && c.Signature.Recv() != nil && isPathT(c.Signature.Recv().Type()) == "PathElem" {
+								return "PathElem.Key"
+							}
+						case *ssa.UnOp:
+							if fa, ok := y.X.(*ssa.FieldAddr); ok && isPathT(fa.X.Type()) == "PathElem" {
+								return "PathElem.Key"
+							}
+							return from(y.X, d+1)
+						case *ssa.Phi:
+							for _, e := range y.Edges {
+								if s := from(e, d+1); s != "" {
+									return s
+								}
+							}
+						}
+						return ""
+					}
+					if s := from(x.Map, 0); s != "" {
+						report(s, in.Pos())
+					}
+				}
+			}
+		}
+	}
+}
+
+// recvWrites decides from a method's own SSA body (the dependency's source is
+// loaded too) whether it may write through parameter idx: a store or map
+// update rooted at it, or passing it on to a method that does. A body that is
+// not available counts as writing.
+func recvWrites(w *World, f *ssa.Function, idx int) bool {
+	e := NewEffects(w)
+	e.FollowCallResults = true
+	return recvWritesD(e, f, idx, 0, map[*ssa.Function]bool{})
+}
+
+func recvWritesD(e *Effects, f *ssa.Function, idx int, depth int, busy map[*ssa.Function]bool) bool {
+	if f.Blocks == nil {
+		n := f.Name()
+		return !(strings.HasPrefix(n, "Get") || n == "String")
+	}
+	if depth > 4 || busy[f] {
+		return false
+	}
+	busy[f] = true
+	defer delete(busy, f)
+	s := slot{fn: f, idx: idx}
+	for _, b := range f.Blocks {
+		for _, in := range b.Instrs {
+			switch x := in.(type) {
+			case *ssa.Store:
+				if e.rootsOf(x.Addr).has(s) && !isLocalCell(x.Addr) {
+					return true
+				}
+			case *ssa.MapUpdate:
+				if e.rootsOf(x.Map).has(s) {
+					return true
+				}
+			case ssa.CallInstruction:
+				cc := x.Common()
+				if b, ok := cc.Value.(*ssa.Builtin); ok {
+					if (b.Name() == "delete" || b.Name() == "copy" || b.Name() == "clear") && len(cc.Args) > 0 && e.rootsOf(cc.Args[0]).has(s) {
+						return true
+					}
+					continue
+				}
+				callee := cc.StaticCallee()
+				args := cc.Args
+				for i, a := range args {
+					if !pointerLike(a.Type()) || !e.rootsOf(a).has(s) {
+						continue
+					}
+					if callee == nil {
+						if cc.IsInvoke() {
+							continue // interface getters on messages (proto reflection) — not followed
+						}
+						return true
+					}
+					if i < len(callee.Params) && recvWritesD(e, callee, i, depth+1, busy) {
+						return true
+					}
+				}
+			}
+		}
+	}
+	return false
+}
